@@ -5,7 +5,7 @@ from lib import gen, sysrun
 from lib.sysrun import Case
 
 LEVEL = "proof"
-CHECKER = "lake build KalignModel.Props.C04 && lake env lean KalignModel/Audit/C04.lean"
+CHECKER = "lake build KalignModel.Props.PipelineFile && lake env lean KalignModel/Audit/C04.lean"
 GLYPHS = "-.~*_"
 
 
@@ -111,12 +111,15 @@ def run(ctx):
                         "line widths, blank lines, trailing blanks, Clustal and MSF renderings with name padding, 2..5 files; compared: output bytes; non-trivial = distinct "
                         "(records, presentation) pairs whose output alignment has >= 1 gap")
     thms = theorems()
-    ok = C.lean_obligations(ctx, "C04", thms) if thms else False
+    thms = thms + C.pipefile_theorems(["kalignFile_presentation_independent", "dealignStep_congr"]) if thms else thms
+    ok = C.lean_obligations(ctx, "C04", thms, module="PipelineFile") if thms else False
     if not thms:
         ctx.obligations.append(dict(name="Props/C04 theorems", ok=False, why="theorem list missing"))
     kvh = C.build_harness("asan")
     rng = ctx.rng
     diffs = C.unit_correspondence(ctx, kvh, C.gen_ops("gen_io.py", ctx.seed, 1 if ctx.quick else 8, prefixes=('read', 'read_as', 'detect_format')), "readers")
+    # whole program, files to file (kalignFile_presentation_independent is about this function)
+    diffs += C.pipefile_correspondence(ctx, kvh, [4 * ctx.seed] if ctx.quick else [4 * ctx.seed + 40 * k for k in range(5)])
     groups = []
     for i in range(16 if ctx.quick else 150):
         kind = rng.choice(["dna", "rna", "protein"])
